@@ -147,7 +147,7 @@ fn frame_read_total<const N: usize>() {
     }
 }
 
-// @h props=C11 tier=quick t=900 sub=frame
+// @h props=C11,C12,C14 tier=quick t=900 sub=frame
 // @fn wtransport-proto/src/frame.rs Frame::read FrameKind::parse; wtransport-proto/src/bytes.rs <&[u8] as BytesReader>::{get_varint,get_bytes}; wtransport-proto/src/ids.rs SessionId::try_from_varint
 // @bound every byte string of length 0..=12
 // @oracle independent RFC 9114 frame parser: same verdict (value / need-more / UnknownFrame after the whole frame / InvalidSessionId / PayloadTooBig), payload is exactly the input slice, <= 4096, consumed <= len; length > 4096 rejected before the payload is looked at; no panic/overflow reachable in /repo code
@@ -643,24 +643,4 @@ fn c11_capsule_reason_1024() {
 #[kani::stub(core::str::validations::run_utf8_validation, crate::common::utf8_ascii_by_construction_stub)]
 fn c11_capsule_reason_1025() {
     capsule_reason_boundary::<1025, 1033>(false)
-}
-
-// @h props=C11 tier=quick t=900 sub=qpack-string-huge-concrete
-// @fn wtransport-proto/src/qpack.rs Decoder::decode_string::<7> Decoder::decode_integer::<7>
-// @bound one concrete length prefix claiming 2^63 + 126 bytes (0x7f then nine continuation octets), followed by 0..=2 symbolic bytes
-// @oracle a claimed length beyond the input is UnexpectedFin; in particular nothing is allocated from the claim (an allocation of more than isize::MAX bytes panics with "capacity overflow")
-// @assume Huffman path cut
-#[kani::proof]
-#[kani::unwind(14)]
-#[kani::stub(core::str::validations::run_utf8_validation, crate::common::utf8_validation_stub)]
-#[kani::stub(httlib_huffman::decode, crate::common::huffman_decode_cut)]
-fn c11_qpack_decode_string_huge_concrete() {
-    let t: [u8; 2] = kani::any();
-    let n: usize = kani::any();
-    kani::assume(n <= 2);
-    let buf: [u8; 12] = [0x7f, 0xff, 0xff, 0xff, 0xff, 0xff, 0xff, 0xff, 0xff, 0x7f, t[0], t[1]];
-    let mut s: &[u8] = &buf[..10 + n];
-    let got = q::decode_string::<7>(&mut s);
-    assert!(matches!(got, Err(DecodingError::UnexpectedFin)), "claimed length of 2^63 bytes not answered with UnexpectedFin");
-    kani::cover!(n == 2, "two bytes after the prefix");
 }
